@@ -87,7 +87,7 @@ def fill(add):
         "exploration",
         GEN + " (conditional postcondition oracle)",
         "Generated network x tree x prior slicing x targets x allow_outer x objective x temperature/seed/repeats through SliceFinder.search and tree.slice; whenever an answer is returned its predicted figures are compared with the tree actually sliced and with the independent cost model, and every target/forbidden-label condition is checked.",
-        "Conditional on the search returning (as the property is); refusals and crashes are counted, not judged.",
+        "Conditional on the search returning (as the property is); refusals are counted, not judged; internal crashes of the finder (KeyError, IndexError, TypeError, ...) are reported as violations.",
         "DESIGN.md 1/C07",
     )
     add(
@@ -95,7 +95,7 @@ def fill(add):
         "exploration",
         GEN + "; exhaustive enumeration of all (2n-3)!! trees as optimality oracle",
         "For each generated network (n<=6 quick, <=7 thorough) every binary tree is enumerated and scored by the independent cost model; the optimal finder's result must attain the minimum for each of 8 objectives, both search_outer settings and several initial cost caps.",
-        "Enumeration bound n<=7; networks constructed to have nothing to pre-simplify.",
+        "Enumeration bound n<=7; 8..10 tensors (thorough ..12) judged by an independent subset dynamic programme that is cross-checked against the enumeration for n<=6; networks constructed to have nothing to pre-simplify.",
         "DESIGN.md 1/C09",
     )
     add(
